@@ -5,7 +5,8 @@
                          teams: every player's (mu, sigma) terms are identical normal forms
   _compute/player-swap   (all five) presentations differing by swapping two players of a team
   rate/presentation      the real rate() on a symbolic game with symbolic rank values, presented
-                         in order pi (ranks permuted alongside): result[pi] == result, on every path
+                         in order pi (ranks permuted alongside) and/or with the players of one team
+                         listed in another order: result[pi] == result, on every path
                          of the sort; for the partial-pairing models only on paths where pi keeps
                          mutually tied teams in their relative order (the stated exception)
 Meta-step (stated, not machine-checked): adjacent transpositions generate all permutations."""
@@ -84,12 +85,14 @@ def unit_compute(model, sizes):
     return recs
 
 
-def unit_rate(model, sizes, perm):
+def unit_rate(model, sizes, perm, player_order=None):
+    """perm: presentation order of the teams; player_order: {team: order of its players} in presentation B"""
     n = len(sizes)
+    player_order = dict(player_order or {})
     S = extract.Scratch(model)
     game.stub_tm_real(S)
     game.stub_phi_real(S)
-    shape = f"sizes={sizes},pi={perm}"
+    shape = f"sizes={sizes},pi={perm}" + (f",players={player_order}" if player_order else "")
     fn = f"{model}.rate"
     ctx = Ctx("R", feas_timeout_ms=300)
     recs = []
@@ -102,6 +105,8 @@ def unit_rate(model, sizes, perm):
         r = [ctx.number(f"r{i}", kinds=(KINT, KFLOAT)) for i in range(n)]
         tA = game.mk_teams(ctx, S, sizes)
         tB0 = game.mk_teams(ctx, S, sizes)
+        for k, po in player_order.items():
+            tB0[k] = [tB0[k][j] for j in po]
         tB = [tB0[k] for k in perm]
         rB = [r[k] for k in perm]
         oa = call(mA.rate, tA, ranks=list(r))
@@ -124,8 +129,9 @@ def unit_rate(model, sizes, perm):
         ok, notes = True, []
         t0 = time.time()
         for p, k in enumerate(perm):
-            for j in range(sizes[k]):
-                for a, b, nm in ((oa[1][k][j].mu, ob[1][p][j].mu, "mu"), (oa[1][k][j].sigma, ob[1][p][j].sigma, "sigma")):
+            for jj in range(sizes[k]):
+                j = player_order[k][jj] if k in player_order else jj
+                for a, b, nm in ((oa[1][k][j].mu, ob[1][p][jj].mu, "mu"), (oa[1][k][j].sigma, ob[1][p][jj].sigma, "sigma")):
                     o, be, note, t = P.prove_eq(term(a), term(b))
                     if not o:
                         ok = False
@@ -137,7 +143,13 @@ def unit_rate(model, sizes, perm):
             md = model_to_dict(mdl) if mdl is not None else {}
             rp["ranks"] = [enc_model(md, f"r{i}") for i in range(n)]
         recs.append(field_rec(f"C04/{model}/rate/presentation@{shape},path{stats['paths']}", ok, "field", "; ".join(notes)[:300], time.time() - t0, fn, shape, rp))
-    explore(ctx, run)
+    try:
+        explore(ctx, run, max_paths=500)
+    except Exception as e:  # noqa: BLE001
+        if "paths" not in str(e):
+            raise
+        recs.append(driver.rec(f"C04/{model}/rate/presentation/path-budget@{shape}", "open", "explorer", 0, fn=fn, shape=shape,
+                               note=f"more than 500 paths (the unchanged tree has at most a few dozen): {e}", replay=_rp(model, sizes, None)))
     recs.append(driver.rec(f"C04/{model}/rate/presentation/paths@{shape}", "discharged" if stats["paths"] > stats["skipped"] else "open", "explorer", 0,
                            kind="vacuity", note=str(stats)))
     return recs
@@ -157,13 +169,17 @@ def units(tier):
             for perm in itertools.permutations(range(n)):
                 if list(perm) != list(range(n)):
                     us.append(("unit_rate", (m, sizes, perm)))
+        # players of one team listed in another order, teams in place, symbolic ranks (ties are paths)
+        for sizes, po in ([((2, 1), {0: [1, 0]}), ((2, 1, 1), {0: [1, 0]}), ((1, 2, 2), {1: [1, 0]})] if tier == "quick" else
+                          [((2, 1), {0: [1, 0]}), ((2, 1, 1), {0: [1, 0]}), ((1, 2, 2), {1: [1, 0]}), ((1, 2, 2), {2: [1, 0]}), ((3, 1, 2), {0: [2, 0, 1]})]):
+            us.append(("unit_rate", (m, sizes, tuple(range(len(sizes))), po)))
         if tier == "thorough":
             sizes = (1, 1, 1, 1)
             for k in range(3):
                 perm = list(range(4))
                 perm[k], perm[k + 1] = perm[k + 1], perm[k]
                 us.append(("unit_rate", (m, sizes, tuple(perm))))
-    us.sort(key=lambda u: -(sum(u[1][1]) * 2 ** len(u[1][1])))
+    us.sort(key=lambda u: -(sum(u[1][1]) * 2 ** len(u[1][1]) * (10 if u[0] == "unit_rate" else 1)))
     return us
 
 
